@@ -47,8 +47,17 @@ pub struct AddCase {
     pub form: u8,
 }
 
+/// epochs over the whole representable range as well: near the duration bounds, with results that stay in range
+fn epoch_wide() -> BS<Ep> {
+    wunion(vec![
+        (5, epoch_any(&ALL_SCALES)),
+        (1, (0usize..9, prop_oneof![(1i128..200 * NS_S), log_mag(76)], any::<bool>()).prop_map(|(s, d, top)| Ep { s, c: if top { DMAX - d } else { DMIN + d } }).boxed()),
+        (1, (0usize..9, count_any()).prop_map(|(s, c)| Ep { s, c }).boxed()),
+    ])
+}
+
 fn add_strategy() -> BS<AddCase> {
-    epoch_any(&ALL_SCALES)
+    epoch_wide()
         .prop_flat_map(|e| (Just(e), dur_for(e.c), dur_for(e.c), 0u8..4))
         .prop_map(|(e, d, f, form)| AddCase { e, d, f: e.c + f, form })
         .boxed()
